@@ -1,0 +1,56 @@
+//go:build verif
+// +build verif
+
+package terminfo
+
+// Verification hooks (build tag "verif" only): read access to the registry of
+// terminal descriptions so that checks enumerate the database instead of a
+// hard-coded name list, and can put it back after lookups that edit entries.
+
+// VerifEntries returns every registered name (including aliases) with the
+// entry it maps to.  The entries are the registered pointers, not copies.
+func VerifEntries() map[string]*Terminfo {
+	dblock.Lock()
+	defer dblock.Unlock()
+	m := make(map[string]*Terminfo, len(terminfos))
+	for k, v := range terminfos {
+		m[k] = v
+	}
+	return m
+}
+
+type verifSnap struct {
+	ptrs map[string]*Terminfo
+	vals map[*Terminfo]Terminfo
+}
+
+// VerifSnapshot records the registry (which names exist, which pointer each
+// maps to, and the field values of every entry).
+func VerifSnapshot() interface{} {
+	dblock.Lock()
+	defer dblock.Unlock()
+	s := &verifSnap{ptrs: map[string]*Terminfo{}, vals: map[*Terminfo]Terminfo{}}
+	for k, v := range terminfos {
+		s.ptrs[k] = v
+		c := *v
+		c.Aliases = append([]string(nil), v.Aliases...)
+		s.vals[v] = c
+	}
+	return s
+}
+
+// VerifRestore puts the registry back to a snapshot taken by VerifSnapshot.
+func VerifRestore(snap interface{}) {
+	s := snap.(*verifSnap)
+	dblock.Lock()
+	defer dblock.Unlock()
+	for k := range terminfos {
+		delete(terminfos, k)
+	}
+	for k, p := range s.ptrs {
+		v := s.vals[p]
+		*p = v
+		p.Aliases = append([]string(nil), v.Aliases...)
+		terminfos[k] = p
+	}
+}
